@@ -17,7 +17,8 @@ tmpd=$(mktemp -d)
 ( cd $tmpd && PYTHONPATH=$wt timeout 600 /venv/bin/python $out/demo.py > $out/demo_unchanged.log 2>&1 ); demo0=$?
 git -C $wt apply $out/patch.diff; applied=$?
 ( cd $wt && env -u SKEPTICOIN_VERIF timeout 900 /venv/bin/python -m pytest -q -p no:cacheprovider --timeout=900 > $out/tests.log 2>&1 ); tests=$?
-( cd $tmpd && PYTHONPATH=$wt timeout 600 /venv/bin/python $out/demo.py > $out/demo_changed.log 2>&1 ); demo1=$?
+tmpd2=$(mktemp -d)
+( cd $tmpd2 && PYTHONPATH=$wt timeout 600 /venv/bin/python $out/demo.py > $out/demo_changed.log 2>&1 ); demo1=$?; rm -rf $tmpd2
 git -C $REPO worktree remove --force $wt; rm -rf $tmpd
 # now the check, against /repo itself
 git -C $REPO status --short | grep -q . && { echo "$REPO not clean"; exit 2; }
